@@ -28,7 +28,7 @@ def expect_violation(rep, cfg, invariant, module='MC_GinCore', key=None, timeout
 
 
 def replay_behaviours(rep, sim_cfg, num, depth=12, seed_off=1, nontrivial=None, fields=None, module='GinCore_Sim',
-                      sigkey=None, generate=None, replay_fn=None):
+                      sigkey=None, generate=None, replay_fn=None, beh_keys=None):
   """Exports simulated behaviours from TLC and replays them into the code.  When `generate` > num,
   `generate` behaviours are exported (cheap) and the `num` replayed ones are chosen greedily so as to cover
   as many distinct non-trivial cases as possible (the rest at random)."""
@@ -46,6 +46,8 @@ def replay_behaviours(rep, sim_cfg, num, depth=12, seed_off=1, nontrivial=None, 
         k = nontrivial(st)
         if k is not None:
           ks.add(k)
+    if beh_keys:
+      ks |= set(beh_keys(b))
     keys.append(ks)
   if len(behs) > num:
     chosen, seen = [], set()
